@@ -528,7 +528,7 @@ def _r4_defs(ctx, pkg):
                   f"{name} lists .{attr} over the unfiltered {J.show(seq)} (position n = index n)", found=J.show(it[2]) if it is not None and it[0] == "for" else "missing")
     for name, seq in (("NELEM", NELEM), ("NSPEC", NSPEC)):
         it = found.get(name)
-        ok = it is not None and it[0] == "out" and it[1] == ("filter", "length", seq, (), ())
+        ok = it is not None and it[0] == "out" and J.canon(it[1]) == ("filter", "length", seq, (), ())
         ctx.check(ok, "R5", f"constants.py:{name}", (PYCONST, it[2] if it is not None and it[0] == "out" else 0), f"{name} = {J.show(seq)} | length",
                   found=J.show(it[1]) if it is not None and it[0] == "out" else "missing")
     # render.py summary and NetworkConfiguration
@@ -1545,3 +1545,5 @@ MUTANTS += [
         {"file": WRAP, "old": "        data[sidx].Tgas = temperature[igrid];\n\n        {% for s, n in zip(species.network, specnum) -%}\n",
          "new": "        data[sidx].Tgas = temperature[igrid];\n\n        {% for s in species.network -%}\n          y[sidx + IDX_{{ s.alias }}] = 0.0;\n        {% endfor %}\n        {% for s, n in zip(species.network, specnum) -%}\n"}], "rules": ["R4"]},
 ]
+BENIGN += [{"name": "count-of-listed-names", "file": PYCONST, "old": "NSPEC = {{ network.species | length }}", "new": 'NSPEC = {{ network.species | map(attribute="name") | list | count }}'}]
+MUTANTS += [{"name": "count-of-gas-species", "file": PYCONST, "old": "NSPEC = {{ network.species | length }}", "new": 'NSPEC = {{ network.species | rejectattr("is_surface") | list | count }}', "rules": ["R5"]}]
